@@ -729,3 +729,284 @@ def translate_writes():
             "def seterrCalls : List String := [" + ", ".join('"' + q + '"' for q in seterr) + "]\n\nend Mouette.Generated.C12W\n")
     T.write_generated("C12W", body)
     return [site]
+
+
+# ------------------------------------------------------------------------------------------------------------------
+# round 5: vector.py (Vec.*) and the remaining hand-modelled functions of geometry.py -> lean/Mouette/Generated/C12Vec.lean
+# ------------------------------------------------------------------------------------------------------------------
+VEC_FILE = "mouette/geometry/vector.py"
+VEC_HEADER = ("import Mouette.Model.VecSource\nset_option linter.unusedVariables false\nnamespace Mouette.Generated.C12Vec\n"
+              "open Mouette.VecS Mouette.BoxHist Mouette.Prim\n\n")
+
+
+class Nv:
+    """bodies of the norm / dot / distance family: values are `List Rat`, results `NVal` (a root is never evaluated)"""
+
+    def __init__(self, fname, env, norm_name):
+        self.f, self.env, self.norm_name = fname, dict(env), norm_name
+
+    def E(self, n):
+        if isinstance(n, ast.Name):
+            if n.id not in self.env: raise TranslateError(f"{self.f}: unknown name `{n.id}`")
+            return "v_" + n.id, self.env[n.id]
+        if isinstance(n, ast.Constant) and isinstance(n.value, str): return f'"{n.value}"', "str"
+        if isinstance(n, ast.BinOp) and isinstance(n.op, ast.Sub):
+            a, aty = self.E(n.left); b, bty = self.E(n.right)
+            if aty == "pt" and bty == "pt": return f"(vsub {a} {b})", "pt"
+        if isinstance(n, ast.Call):
+            d = (_call(n) or "").replace("numpy.", "np.")
+            a = n.args
+            if isinstance(n.func, ast.Attribute) and n.func.attr == "flatten" and not a: return self.E(n.func.value)
+            if d == "Vec" and len(a) == 1: return self.E(a[0])
+            if d == "np.dot" and len(a) == 2 and not n.keywords:
+                x, xt = self.E(a[0]); y, yt = self.E(a[1])
+                if xt == "pt" and yt == "pt": return f"(vdot {x} {y})", "rat"
+            if d == "np.abs" and len(a) == 1:
+                x, xt = self.E(a[0])
+                if xt == "pt": return f"(vabs {x})", "pt"
+            if d in ("np.sum", "np.max") and len(a) == 1 and not n.keywords:
+                x, xt = self.E(a[0])
+                if xt == "pt": return f"(NVal.exact ({'vsum' if d == 'np.sum' else 'vmaxl'} {x}))", "nval"
+            if d in ("np.sqrt", "math.sqrt", "sqrt") and len(a) == 1:
+                x, xt = self.E(a[0])
+                if xt == "rat": return f"(NVal.sqrt {x})", "nval"
+            if d in ("norm", "Vec.norm") and len(a) == 2 and not n.keywords and self.norm_name:
+                x, xt = self.E(a[0]); y, yt = self.E(a[1])
+                if xt == "pt" and yt == "str": return f"({self.norm_name} {x} {y})", "onval"
+        raise TranslateError(f"{self.f}: expression `{ast.unparse(n)[:70]}` is not understood")
+
+    def block(self, stmts):
+        if not stmts: return "none"            # falls off the end: Python returns None
+        st, rest = stmts[0], stmts[1:]
+        if isinstance(st, ast.Expr) and _call(st.value, "check_argument"):
+            a = st.value.args
+            if len(a) == 4 and isinstance(a[3], ast.List) and all(isinstance(e, ast.Constant) and isinstance(e.value, str) for e in a[3].elts) and _name(a[1]):
+                lst = "[" + ", ".join(f'"{e.value}"' for e in a[3].elts) + "]"
+                return f"if !(({lst} : List String).contains v_{a[1].id}) then none else\n" + self.block(rest)
+        if isinstance(st, ast.Return):
+            t, ty = self.E(st.value)
+            if ty == "nval": return f"some {t}"
+            if ty == "onval": return t
+            raise TranslateError(f"{self.f}: returns a value of type {ty}")
+        if isinstance(st, ast.If) and isinstance(st.test, ast.Compare) and len(st.test.ops) == 1 and isinstance(st.test.ops[0], ast.Eq):
+            a, aty = self.E(st.test.left); b, bty = self.E(st.test.comparators[0])
+            if aty == "str" and bty == "str":
+                yes = self.block(_strip(st.body))
+                no = self.block(_strip(st.orelse) + rest)
+                return f"if {a} = {b} then {yes} else\n{no}"
+        raise TranslateError(f"{self.f}: statement `{ast.unparse(st)[:70]}` is not understood")
+
+
+def _norm_fn(tree, cls, name, lean, doc):
+    scope = T.find_def(tree, cls) if cls else tree
+    fn = [f for f in scope.body if isinstance(f, ast.FunctionDef) and f.name == name]
+    if not fn: raise TranslateError(f"{doc} not found")
+    fn = Norm().visit(copy.deepcopy(fn[0])); ast.fix_missing_locations(fn)
+    names = [a.arg for a in fn.args.args]
+    if len(names) != 2: raise TranslateError(f"{doc}: parameters {names}")
+    txt = Nv(doc, {names[0]: "pt", names[1]: "str"}, None).block(_strip(fn.body))
+    return f"/-- `{doc}` (`none`: the argument check raises, or no branch returns) -/\ndef {lean} (v_{names[0]} : List Rat) (v_{names[1]} : String) : Option NVal :=\n{ind(txt)}\n"
+
+
+def _err_fn(tree, name, lean):
+    """`Vec.normalized` / `Vec.normalize`: the statements that touch numpy's error state and the division, state-passing over `Err`"""
+    cls = T.find_def(tree, "Vec")
+    fn = [f for f in cls.body if isinstance(f, ast.FunctionDef) and f.name == name]
+    if not fn: raise TranslateError(f"Vec.{name} not found")
+    fn = fn[0]
+    names = [a.arg for a in fn.args.args]
+    if len(names) != 2: raise TranslateError(f"Vec.{name}: parameters {names}")
+    vec = names[0]
+    norms = set()
+
+    def is_norm(n):
+        return (_call(n) in ("Vec.norm", "norm") and len(n.args) == 2 and _name(n.args[0], vec)) or \
+               (isinstance(n, ast.Call) and isinstance(n.func, ast.Attribute) and n.func.attr == "norm" and _name(n.func.value, vec))
+
+    def is_div(n):
+        while _call(n) in ("Vec", "np.asarray", "np.array") and len(n.args) == 1: n = n.args[0]
+        return isinstance(n, ast.BinOp) and isinstance(n.op, ast.Div) and _name(n.left, vec) and \
+            ((_name(n.right) and n.right.id in norms) or is_norm(n.right))
+
+    def mode(call):
+        kw = {k.arg: k.value for k in call.keywords}
+        if set(kw) == {"all"} and isinstance(kw["all"], ast.Constant) and kw["all"].value in ("raise", "warn", "ignore") and not call.args:
+            return "." + kw["all"].value
+        raise TranslateError(f"Vec.{name}: `{ast.unparse(call)[:60]}` (understood: all='raise'|'warn'|'ignore')")
+
+    def block(stmts, restore, k):
+        if not stmts: return k()
+        st, rest = stmts[0], stmts[1:]
+
+        def after(): return block(rest, restore, k)
+        if isinstance(st, ast.Assign) and len(st.targets) == 1 and _name(st.targets[0]) and is_norm(st.value):
+            norms.add(st.targets[0].id); return after()
+        if (isinstance(st, ast.Assign) and len(st.targets) == 1 and _name(st.targets[0]) and is_div(st.value)) or \
+                (isinstance(st, ast.AugAssign) and _name(st.target, vec) and isinstance(st.op, ast.Div) and ((_name(st.value) and st.value.id in norms) or is_norm(st.value))):
+            return f"if divRaises e v_{vec} then ({restore}, false) else\n" + after()
+        if isinstance(st, ast.Expr) and (_call(st.value) or "").split(".")[-1] == "seterr":
+            return f"let e := Err.all {mode(st.value)}\n" + after()
+        if isinstance(st, ast.With) and len(st.items) == 1 and (_call(st.items[0].context_expr) or "").split(".")[-1] == "errstate":
+            m = mode(st.items[0].context_expr)
+            lvl = restore.count("_") + 1
+            saved = "saved" + "_" * lvl
+            inner = block(_strip(st.body), saved, lambda: f"let e := {saved}\n" + block(rest, restore, k))
+            return f"let {saved} := e\nlet e := Err.all {m}\n" + inner
+        if isinstance(st, ast.Return):
+            return "(e, true)"
+        raise TranslateError(f"Vec.{name}: statement `{ast.unparse(st)[:70]}` is not understood")
+    txt = block(_strip(Norm().visit(copy.deepcopy(fn)).body), "e", lambda: "(e, true)")
+    return (f"/-- `Vec.{name}`: numpy's error state after the call and whether it returned (`true`) or raised (`false`) -/\n"
+            f"def {lean} (e : Err) (v_{vec} : List Rat) : Err × Bool :=\n{ind(txt)}\n")
+
+
+class Ps(Pr):
+    """`Pr` plus vectors known up to positive factors (`Vec.normalized`): type ('n3'|'h3'|'hs'|'hq', factors)"""
+
+    def E(self, n):
+        d = _call(n) or ""
+        if isinstance(n, ast.Call):
+            a = n.args
+            if d in ("Vec.normalized",) and len(a) == 1:
+                x, xt = self.E(a[0])
+                if xt == "v3" or (isinstance(xt, tuple) and xt[0] in ("h3", "n3")): return x, ("n3", (x,))
+                raise TranslateError(f"{self.f}: normalized of a value of type {xt}")
+            if d in ("cross", "dot", "np.dot") and len(a) == 2:
+                x, xt = self.E(a[0]); y, yt = self.E(a[1])
+                fx = xt[1] if isinstance(xt, tuple) else (); fy = yt[1] if isinstance(yt, tuple) else ()
+                okx = xt == "v3" or (isinstance(xt, tuple) and xt[0] in ("n3", "h3")); oky = yt == "v3" or (isinstance(yt, tuple) and yt[0] in ("n3", "h3"))
+                if okx and oky and (fx or fy):
+                    fac = tuple(sorted(fx + fy))
+                    if d == "cross": return f"(V3.cross {x} {y})", ("h3", fac)
+                    return f"(V3.dot {x} {y})", ("hs", fac)
+            if d == "norm" and len(a) == 1:
+                x, xt = self.E(a[0])
+                if isinstance(xt, tuple) and xt[0] == "h3": return f"(V3.norm2 {x})", ("hq", xt[1])
+        if isinstance(n, ast.BinOp) and isinstance(n.op, ast.Div):
+            x, xt = self.E(n.left); y, yt = self.E(n.right)
+            if isinstance(xt, tuple) and isinstance(yt, tuple) and xt[0] == "hs" and yt[0] == "hq":
+                if xt[1] != yt[1]:
+                    raise TranslateError(f"{self.f}: the positive factors of `{ast.unparse(n)[:50]}` do not cancel ({xt[1]} vs {yt[1]})")
+                return f"({x}, {y})", "rq"
+        return super().E(n)
+
+
+def translate_vec():
+    sites, chunks = [], []
+    try:
+        vtree, _ = T.load(VEC_FILE)
+        gtree, _ = T.load(GEOM_FILE)
+    except Exception as e:  # noqa
+        T.write_generated("C12Vec", "namespace Mouette.Generated.C12Vec\nend Mouette.Generated.C12Vec\n")
+        return [{"site": "vector.py / geometry.py", "ok": False, "detail": f"{type(e).__name__}: {e}"}]
+
+    def add(name, fn):
+        def run():
+            r = fn()
+            chunks.append(r)
+            return "body compiled"
+        sites.append(T.site(name, run))
+
+    add("geometry.py: norm (body)", lambda: _norm_fn(gtree, None, "norm", "normG", "norm"))
+    add("vector.py: Vec.norm (body)", lambda: _norm_fn(vtree, "Vec", "norm", "vecNorm", "Vec.norm"))
+
+    def s_dots():
+        out = ""
+        for tree, cls, lean, doc in ((gtree, None, "dotG", "dot"), (vtree, "Vec", "vecDot", "Vec.dot")):
+            scope = T.find_def(tree, cls) if cls else tree
+            fn = [f for f in scope.body if isinstance(f, ast.FunctionDef) and f.name == "dot"][0]
+            names = [a.arg for a in fn.args.args]
+            body = _strip(fn.body)
+            if len(names) != 2 or len(body) != 1 or not isinstance(body[0], ast.Return): raise TranslateError(f"{doc}: expected a single return")
+            t, ty = Nv(doc, {names[0]: "pt", names[1]: "pt"}, None).E(body[0].value)
+            if ty != "rat": raise TranslateError(f"{doc}: returns {ty}")
+            out += f"/-- `{doc}` -/\ndef {lean} (v_{names[0]} v_{names[1]} : List Rat) : Rat :=\n  {t}\n\n"
+        return out
+    add("geometry.py: dot / vector.py: Vec.dot (bodies)", s_dots)
+
+    def s_distance():
+        fn = T.find_def(gtree, "distance")
+        names = [a.arg for a in fn.args.args]
+        body = _strip(fn.body)
+        if len(names) != 3 or len(body) != 1 or not isinstance(body[0], ast.Return): raise TranslateError("distance: expected a single return")
+        t, ty = Nv("distance", {names[0]: "pt", names[1]: "pt", names[2]: "str"}, "normG").E(body[0].value)
+        if ty != "onval": raise TranslateError(f"distance: returns {ty}")
+        return f"/-- `distance` -/\ndef distanceG (v_{names[0]} v_{names[1]} : List Rat) (v_{names[2]} : String) : Option NVal :=\n  {t}\n"
+    add("geometry.py: distance (body)", s_distance)
+    add("vector.py: Vec.normalized (error state + division)", lambda: _err_fn(vtree, "normalized", "normalized"))
+    add("vector.py: Vec.normalize (error state + division)", lambda: _err_fn(vtree, "normalize", "normalize"))
+
+    def s_cotan():
+        fn = T.find_def(gtree, "cotan")
+        names = [a.arg for a in fn.args.args]
+        if len(names) != 3: raise TranslateError(f"cotan: parameters {names}")
+        fn = Norm().visit(copy.deepcopy(fn)); ast.fix_missing_locations(fn)
+        p = Ps("cotan", {x: "v3" for x in names})
+        body = _strip(fn.body)
+        # `A, B, C = Vec(A), Vec(B), Vec(C)`: value-level identity
+        if body and isinstance(body[0], ast.Assign) and isinstance(body[0].targets[0], ast.Tuple) and isinstance(body[0].value, ast.Tuple) \
+                and [ast.unparse(e) for e in body[0].value.elts] == [f"Vec({ast.unparse(t)})" for t in body[0].targets[0].elts]:
+            body = body[1:]
+        txt = p.block(body, False)
+        if p.env.get("__ret") is not None: pass
+        return f"/-- `cotan`: the pair `(c, s²)` with `cotan = c/√s²` (the normalisations of `BA`, `BC` cancel) -/\ndef cotanPair (v_{names[0]} v_{names[1]} v_{names[2]} : V3) : Rat × Rat :=\n{ind(txt)}\n"
+    add("geometry.py: cotan (body)", s_cotan)
+
+    def s_face_basis():
+        fn = T.find_def(gtree, "face_basis")
+        if not fn.args.vararg or fn.args.args: raise TranslateError("face_basis: expected `*f`")
+        f = fn.args.vararg.arg
+        body = _strip(Norm().visit(copy.deepcopy(fn)).body)
+        if body and isinstance(body[0], ast.If) and ast.unparse(body[0].test).replace(" ", "") in (f"len({f})==1", f"1==len({f})"): body = body[1:]
+        if not (body and isinstance(body[0], ast.Assign) and isinstance(body[0].targets[0], ast.Tuple) and len(body[0].targets[0].elts) == 3
+                and ast.unparse(body[0].value).replace(" ", "") in (f"(xforxin{f})", f)):
+            raise TranslateError("face_basis: expected `pA, pB, pC = (x for x in f)`")
+        pts = [e.id for e in body[0].targets[0].elts]
+        p = Ps("face_basis", {x: "v3" for x in pts})
+        lines = []
+        for st in body[1:-1]:
+            if not (isinstance(st, ast.Assign) and len(st.targets) == 1 and _name(st.targets[0])): raise TranslateError(f"face_basis: statement `{ast.unparse(st)[:60]}`")
+            t, ty = p.E(st.value)
+            p.env[st.targets[0].id] = ty
+            lines.append(f"let v_{st.targets[0].id} := {t}")
+        r = body[-1]
+        if not (isinstance(r, ast.Return) and isinstance(r.value, ast.Tuple) and len(r.value.elts) == 3): raise TranslateError("face_basis: expected `return X, Y, Z`")
+        outs = [p.E(e) for e in r.value.elts]
+        if not all(isinstance(ty, tuple) and ty[0] == "n3" for _, ty in outs): raise TranslateError("face_basis: the returned vectors are not all normalised")
+        lines.append("(" + ", ".join(t for t, _ in outs) + ")")
+        ps = " ".join(f"(v_{x} : V3)" for x in pts)
+        return ("/-- `face_basis`: the three returned vectors BEFORE their normalisation (each is then divided by its length) -/\n"
+                f"def faceBasisRaw {ps} : V3 × V3 × V3 :=\n" + ind("\n".join(lines)) + "\n")
+    add("geometry.py: face_basis (body)", s_face_basis)
+
+    def s_vec_new():
+        cls = T.find_def(vtree, "Vec")
+        fn = [f for f in cls.body if isinstance(f, ast.FunctionDef) and f.name == "__new__"][0]
+        kinds = []
+        for n in ast.walk(fn):
+            if isinstance(n, ast.Assign) and isinstance(n.value, ast.Call) and isinstance(n.value.func, ast.Attribute) and n.value.func.attr == "view":
+                inner = n.value.func.value
+                kinds.append(_call(inner) or ast.unparse(inner)[:30])
+        if len(kinds) != 2: raise TranslateError(f"Vec.__new__: expected two `<conversion>(..).view(cls)` branches, found {kinds}")
+        acc = []
+        for f in cls.body:
+            if isinstance(f, ast.FunctionDef) and f.name in ("x", "y", "z"):
+                body = _strip(f.body)
+                setter = any(isinstance(d, ast.Attribute) and d.attr == "setter" for d in f.decorator_list)
+                if setter:
+                    ok = len(body) == 1 and isinstance(body[0], ast.Assign) and isinstance(body[0].targets[0], ast.Subscript) and ast.unparse(body[0].targets[0].value) == "self" \
+                        and isinstance(body[0].targets[0].slice, ast.Constant) and _name(body[0].value, f.args.args[1].arg)
+                    idx = body[0].targets[0].slice.value if ok else None
+                else:
+                    ok = len(body) == 1 and isinstance(body[0], ast.Return) and isinstance(body[0].value, ast.Subscript) and ast.unparse(body[0].value.value) == "self" \
+                        and isinstance(body[0].value.slice, ast.Constant)
+                    idx = body[0].value.slice.value if ok else None
+                if not ok: raise TranslateError(f"Vec.{f.name} ({'setter' if setter else 'getter'}): `{ast.unparse(f)[-50:]}`")
+                acc.append((f.name + ("=" if setter else ""), idx))
+        return ("/-- `Vec.__new__`: the conversion applied to ONE argument / to SEVERAL arguments before `.view(cls)` (`np.asarray` does not copy an ndarray: `Vec(a)` is a view of `a`) -/\n"
+                "def vecNewConversions : List String := [" + ", ".join(f'"{k}"' for k in kinds) + "]\n\n"
+                "/-- `Vec.x/.y/.z` getters and setters (`name=`): the index they read / write -/\n"
+                "def vecAccessors : List (String × Nat) := [" + ", ".join(f'("{a}", {i})' for a, i in acc) + "]\n")
+    add("vector.py: Vec.__new__ conversions, Vec.x/.y/.z getters and setters", s_vec_new)
+    T.write_generated("C12Vec", "\n".join(chunks) + "\nend Mouette.Generated.C12Vec\n", VEC_HEADER)
+    return sites
